@@ -617,6 +617,72 @@ def input_ok(text: str, tlimit: float = 10.0) -> tuple[str, int, str]:
         return "timeout", 0, ""
 
 
+def ssa_obligations(module: Any) -> tuple[list[str], list[str]]:
+    """SSA dominance of a module, reduced to what the Lean model `ssa_dom` decides.
+    Returns (protocol lines, one per multi-block region that has cross-block uses; local violations found
+    while walking: a use before its definition inside one block, a use of a value that is not defined in an
+    enclosing region).  Graph regions (the module body) carry no order."""
+    from xdsl.dialects.builtin import ModuleOp
+    from xdsl.ir import BlockArgument, OpResult
+
+    local: list[str] = []
+    obl: dict[int, tuple[Any, list[tuple[int, int]]]] = {}
+    bidx: dict[int, dict[int, int]] = {}
+    opos: dict[int, dict[int, int]] = {}
+
+    def block_index(reg: Any, b: Any) -> int:
+        d = bidx.get(id(reg))
+        if d is None:
+            d = bidx[id(reg)] = {id(x): i for i, x in enumerate(reg.blocks)}
+        return d[id(b)]
+
+    def op_pos(b: Any, o: Any) -> int:
+        d = opos.get(id(b))
+        if d is None:
+            d = opos[id(b)] = {id(x): i for i, x in enumerate(b.ops)}
+        return d[id(o)]
+
+    for u in module.walk():
+        for v in u.operands:
+            if isinstance(v, OpResult):
+                dop, dblk = v.op, v.op.parent
+            elif isinstance(v, BlockArgument):
+                dop, dblk = None, v.block
+            else:
+                local.append(f"{u.name}: operand is a {type(v).__name__}")
+                continue
+            if dblk is None or dblk.parent is None:
+                local.append(f"{u.name}: operand defined outside the module")
+                continue
+            dreg = dblk.parent
+            a = u
+            while a is not None and (a.parent is None or a.parent.parent is not dreg):
+                a = a.parent_op()
+            if a is None:
+                local.append(f"{u.name}: uses a value that is not defined in an enclosing region")
+                continue
+            if isinstance(dreg.parent, ModuleOp):
+                continue
+            if a.parent is dblk:
+                if dop is not None and op_pos(dblk, dop) >= op_pos(dblk, a):
+                    local.append(f"{u.name}: used before (or inside) its definition {dop.name} in one block")
+                continue
+            ent = obl.get(id(dreg))
+            if ent is None:
+                ent = obl[id(dreg)] = (dreg, [])
+            ent[1].append((block_index(dreg, dblk), block_index(dreg, a.parent)))
+    lines = []
+    for reg, pairs in obl.values():
+        ws = []
+        for b in reg.blocks:
+            last = b.last_op
+            ss = [block_index(reg, x) for x in last.successors if x.parent is reg] if last is not None else []
+            ws.append(",".join(map(str, ss)) if ss else "-")
+        uniq = list(dict.fromkeys(pairs))
+        lines.append("ssa " + " ".join(ws) + " | " + " ".join(f"{x}>{y}" for x, y in uniq))
+    return lines, local
+
+
 def schedule_instances(cls: type, text: str, tlimit: float) -> list[dict[str, Any]]:
     """option dicts of the instances `cls.schedule_space` offers for this module"""
     from xdsl.parser import Parser
@@ -633,7 +699,8 @@ def instantiate(name: str, cls: type, spec: dict[str, Any], text: str):
     return build_pass(cls, spec.get("options", {}))
 
 
-def run_pair(name: str, cls: type, spec: dict[str, Any], text: str, tlimit: float, before: str | None = None) -> dict[str, Any]:
+def run_pair(name: str, cls: type, spec: dict[str, Any], text: str, tlimit: float, before: str | None = None,
+             keep_text: bool = False) -> dict[str, Any]:
     """Run one pass instance on a fresh parse of `text` and judge the result.
     outcome: raised | timeout | no-instance | ok | fail (+ clause, opkind, detail); `lines` = snapshot for Lean,
     `walk` = failing clauses found by the Python walk."""
@@ -690,6 +757,8 @@ def run_pair(name: str, cls: type, spec: dict[str, Any], text: str, tlimit: floa
                     res.update(outcome="fail", clause=rf[0], opkind=rf[1], detail=rf[2])
                 if before is not None and "generic" in texts:
                     res["changed"] = texts["generic"] != before
+                if keep_text and "generic" in texts:
+                    res["after"] = texts["generic"]
     except CpuTimeout:
         return {"outcome": "timeout-in-check"}
     return res
